@@ -597,41 +597,12 @@ func c10Collector(c *core.Ctx, r *core.Report) {
 					r.Undecided("C10.R1", cons, c.Pos(g.Pos()), "collector cell not found")
 					continue
 				}
-				// parent uses: nil/len tests and a range whose elements only feed error construction
+				// parent uses: nil/len tests and a range whose elements only feed error construction (also inside a helper
+				// the slice is handed to)
 				ok := true
 				for _, rf := range *al.Referrers() {
-					ld, isLoad := rf.(*ssa.UnOp)
-					if !isLoad {
-						continue
-					}
-					for _, u := range *ld.Referrers() {
-						switch x := u.(type) {
-						case *ssa.BinOp, *ssa.DebugRef:
-						case *ssa.Call:
-							if bi, isB := x.Common().Value.(*ssa.Builtin); !isB || bi.Name() != "len" {
-								ok = false
-							}
-						case *ssa.IndexAddr:
-							// element: only .Error() / wrapping
-							for _, e1 := range *x.Referrers() {
-								if el, isEl := e1.(*ssa.UnOp); isEl {
-									for _, e2 := range *el.Referrers() {
-										call, isCall := e2.(*ssa.Call)
-										if !isCall {
-											if _, isDbg := e2.(*ssa.DebugRef); !isDbg {
-												ok = false
-											}
-											continue
-										}
-										if !(call.Common().IsInvoke() && call.Common().Method.Name() == "Error") {
-											if _, isWrap := core.IsErrWrap(call); !isWrap {
-												ok = false
-											}
-										}
-									}
-								}
-							}
-						default:
+					if ld, isLoad := rf.(*ssa.UnOp); isLoad {
+						if !diagnosticOnly(c, ld, 0) {
 							ok = false
 						}
 					}
@@ -641,4 +612,61 @@ func c10Collector(c *core.Ctx, r *core.Report) {
 		}
 	}
 	r.Count("goroutine_collectors", n)
+}
+
+// diagnosticOnly: the slice value v is only tested for emptiness, measured, or has its elements folded into error
+// texts - directly or inside an in-scope static callee it is passed to.
+func diagnosticOnly(c *core.Ctx, v ssa.Value, depth int) bool {
+	if depth > 2 || v.Referrers() == nil {
+		return false
+	}
+	for _, u := range *v.Referrers() {
+		switch x := u.(type) {
+		case *ssa.BinOp, *ssa.DebugRef:
+		case *ssa.Call:
+			if bi, isB := x.Common().Value.(*ssa.Builtin); isB {
+				if bi.Name() != "len" {
+					return false
+				}
+				continue
+			}
+			cal := x.Common().StaticCallee()
+			if cal == nil || !c.InScope(cal) || cal.Blocks == nil {
+				return false
+			}
+			okArg := false
+			for i, a := range x.Common().Args {
+				if a == v && i < len(cal.Params) {
+					okArg = diagnosticOnly(c, cal.Params[i], depth+1)
+				}
+			}
+			if !okArg {
+				return false
+			}
+		case *ssa.IndexAddr:
+			for _, e1 := range *x.Referrers() {
+				el, isEl := e1.(*ssa.UnOp)
+				if !isEl {
+					continue
+				}
+				for _, e2 := range *el.Referrers() {
+					call, isCall := e2.(*ssa.Call)
+					if !isCall {
+						if _, isDbg := e2.(*ssa.DebugRef); !isDbg {
+							return false
+						}
+						continue
+					}
+					if !(call.Common().IsInvoke() && call.Common().Method.Name() == "Error") {
+						if _, isWrap := core.IsErrWrap(call); !isWrap {
+							return false
+						}
+					}
+				}
+			}
+		default:
+			return false
+		}
+	}
+	return true
 }
